@@ -225,7 +225,11 @@ func (s *encoder) Run(ctx context.Context) {
 		return
 	}
 
-	s.data = splitWithUDHI(encodedData, perMsgLength, s.frameKey)
+	s.data, err = splitWithUDHI(encodedData, perMsgLength, s.frameKey)
+	if err != nil {
+		s.canEncode = false
+		s.reason = fmt.Sprintf("%s split error: %v", s.Name(), err)
+	}
 }
 
 func (s *encoder) Result() (contents [][]byte, actualMsgFmt datacoding.ProtocolDataCoding, err error) {
